@@ -768,6 +768,19 @@ func (r Registry[R, T]) LinkMessage(
 					}
 
 					go func() {
+						// Building the response calls into user code as well (e.g. `Error()` on a returned
+						// error), so make sure that a panic there ends the link instead of the process
+						defer func() {
+							if e := recover(); e != nil {
+								err, ok := e.(error)
+								if !ok {
+									err = utils.ErrPanickedWithNonErrorValue
+								}
+
+								setErr(err)
+							}
+						}()
+
 						verifYield("handler.start", req.Call)
 						res, err := utils.Call(function, args)
 						verifYield("handler.done", req.Call)
